@@ -148,6 +148,10 @@ class Executor:
             return z3.Not(v.is_none)
         if isinstance(v, str):
             return z3.BoolVal(v != "")
+        if isinstance(v, StrV):
+            if not hasattr(v, "_truth"):
+                v._truth = fresh("nonempty", z3.BoolSort())
+            return v._truth
         if isinstance(v, int):
             return z3.BoolVal(v != 0)
         if z3.is_int(v):
@@ -232,6 +236,13 @@ class Executor:
             return self.consts[name]
         if name in self.classes:
             return self.classes[name]
+        for n in module_ast(self.module).body:
+            if isinstance(n, ast.FunctionDef) and n.name == name:
+                return FuncV(n, self.module, qualname=name)
+            if isinstance(n, (ast.Assign, ast.AnnAssign)):
+                tgt = n.targets[0] if isinstance(n, ast.Assign) else n.target
+                if isinstance(tgt, ast.Name) and tgt.id == name and n.value is not None and isinstance(n.value, ast.Constant):
+                    return self.lift(n.value.value) if not isinstance(n.value.value, str) else n.value.value
         raise Unsupported(f"unknown name {name}")
 
     def ev_Name(self, e, st):
@@ -280,11 +291,12 @@ class Executor:
         return outs
 
     def ev_BoolOp(self, e, st):
+        """short-circuit and/or with Python's value semantics (the deciding operand is the result); forks on truthiness"""
         first, rest = e.values[0], e.values[1:]
         outs = []
         for v, s in self.ev(first, st):
             if isinstance(v, Raised) or not rest:
-                outs.append((v if isinstance(v, Raised) or not rest and False else v, s))
+                outs.append((v, s))
                 continue
             b = self.truthy(v, s)
             nxt = ast.BoolOp(op=e.op, values=rest) if len(rest) > 1 else rest[0]
@@ -293,12 +305,11 @@ class Executor:
             s1 = s.clone()
             s1.pc.append(short)
             if self.feasible(s1):
-                outs.append((z3.BoolVal(isinstance(e.op, ast.Or)) if z3.is_bool(v) or True else v, s1))
+                outs.append((v, s1))
             s2 = s.clone()
             s2.pc.append(cont)
             if self.feasible(s2):
-                for v2, s3 in self.ev(nxt, s2):
-                    outs.append((v2 if isinstance(v2, Raised) else self.truthy(v2, s3), s3))
+                outs += self.ev(nxt, s2)
         return outs
 
     def ev_IfExp(self, e, st):
@@ -409,6 +420,9 @@ class Executor:
                 return z3.And(z3.Not(item.is_none), self.contains(container, item.val, st, line))
             if isinstance(item, Char):
                 return z3.Or(*[item.code == ord(k) for k in c.items if isinstance(k, str) and len(k) == 1]) if c.items else z3.BoolVal(False)
+            if z3.is_expr(item):
+                ks = [k for k in c.items if isinstance(k, int)]
+                return z3.Or(*[item == k for k in ks]) if ks else z3.BoolVal(False)
             return z3.BoolVal(item in c.items)
         if isinstance(c, str):
             if isinstance(item, Opt):
@@ -511,6 +525,7 @@ class Executor:
                 continue
             n = len(e.keys)
             ks, vs = vals[:n], vals[n:]
+            ks = [k.as_long() if z3.is_int_value(k) else k for k in ks]
             if not all(isinstance(k, (str, int)) for k in ks):
                 raise Unsupported("dict literal with symbolic keys")
             outs.append((s.alloc(PyDict(dict(zip(ks, vs)))), s))
@@ -621,9 +636,24 @@ class Executor:
             cond = z3.BoolVal(True)
             for c in g.ifs:
                 cond = z3.And(cond, self._pure(c, sub))
-            if not (isinstance(e.key, ast.Name) and e.key.id == kname):
-                raise Unsupported("dictcomp with re-keyed entries")
             val = self.lift(self._pure(e.value, sub))
+            if not (isinstance(e.key, ast.Name) and e.key.id == kname):
+                # re-keyed entries: supported when the new key is an invertible affine function of an Int key (c - k, k + c, int(k))
+                if d.ksort != z3.IntSort():
+                    raise Unsupported("dictcomp with re-keyed entries")
+                newkey = self.lift(self._pure(e.key, sub))
+                j = fresh("cj", z3.IntSort())
+                diff = z3.simplify(newkey + k)
+                summ = z3.simplify(newkey - k)
+                if not _mentions(summ, k):          # newkey = k + c  -> k = j - c
+                    inv = j - summ
+                elif not _mentions(diff, k):        # newkey = c - k  -> k = c - j
+                    inv = diff - j
+                else:
+                    raise Unsupported("dictcomp with non-affine re-keying")
+                dom = z3.Lambda([j], z3.substitute(z3.And(d.has(k), cond), (k, inv)))
+                varr = z3.Lambda([j], z3.substitute(val, (k, inv)))
+                return st.alloc(DictV(dom, varr, d.ksort, val.sort()))
             dom = z3.Lambda([k], z3.And(d.has(k), cond))
             varr = z3.Lambda([k], val)
             return st.alloc(DictV(dom, varr, d.ksort, val.sort()))
@@ -801,6 +831,17 @@ class Executor:
             if name == "get":
                 if isinstance(args[0], (str, int)):
                     return [(o.items.get(args[0], args[1] if len(args) > 1 else NONE), st)]
+            if name == "pop" and isinstance(args[0], (str, int)):
+                d = dict(o.items)
+                if args[0] in d:
+                    v = d.pop(args[0])
+                elif len(args) > 1:
+                    v = args[1]
+                else:
+                    self.oblige("exc-free", st, z3.BoolVal(False), line, "KeyError:pop")
+                    return [(Raised(Exc("KeyError", line)), st)]
+                setv(PyDict(d))
+                return [(v, st)]
         if isinstance(o, ListV):
             if name == "pop":
                 if args and not (z3.is_int_value(self.lift(args[0])) and self.lift(args[0]).as_long() in (0, -1)):
@@ -1383,6 +1424,8 @@ class Executor:
         line = s.lineno
         src = st.deref(it) if isinstance(it, Ref) else it
         # concrete iteration (unrolled exactly: the length is concrete on this path)
+        if isinstance(src, tuple) and src[0] == "keys_snapshot":
+            src = ("keys", src[1])
         if isinstance(src, (PyList, TupleV)) or (isinstance(src, tuple) and src[0] in ("items", "keys", "values") and isinstance(st.deref(src[1]), PyDict)):
             if isinstance(src, tuple):
                 d = st.deref(src[1]).items
@@ -1454,7 +1497,7 @@ class Executor:
                 ghost_in["key"] = key
                 for s3, o in self.run(s.body, sb):
                     d_after = s3.deref(src[1])
-                    if not _same(d_after, d_now):
+                    if isinstance(src[1], Ref) and not _same(d_after, d_now):
                         self.oblige("frame", s3, d_after.same_as(d_now), line, "iterated dict unchanged")
                     if o is None or o[0] == "continue":
                         g2 = {"done": z3.Store(done, key, z3.BoolVal(True)), "iter_dict": d}
@@ -1512,6 +1555,19 @@ class Executor:
                         outs.append((s3, o))
             return outs
         raise Unsupported(f"for over {type(src).__name__} L{line}")
+
+
+def _mentions(expr, var) -> bool:
+    seen, todo = set(), [expr]
+    while todo:
+        x = todo.pop()
+        if x.get_id() in seen:
+            continue
+        seen.add(x.get_id())
+        if x.eq(var):
+            return True
+        todo.extend(x.children())
+    return False
 
 
 def _with_target(spec: LoopSpec, target) -> LoopSpec:
